@@ -385,6 +385,10 @@ func (fr *Frame) localByName(st *State, name string, b *ssa.BasicBlock) (CV, boo
 		if _, isVar := d.Object().(*types.Var); !isVar {
 			continue
 		}
+		if !d.IsAddr && !types.Identical(d.X.Type(), d.Object().Type()) {
+			// the reference was recorded on an implicitly converted value (e.g. boxed into an interface)
+			continue
+		}
 		s := 0
 		switch v := d.X.(type) {
 		case *ssa.Phi:
@@ -888,6 +892,9 @@ func (ctx *EvalCtx) runSpecCall(fn *ssa.Function, recv *CV, argExprs []ast.Expr)
 		if ct.ReadsWorld {
 			fargs = append(fargs, ctx.state().world)
 		}
+		if len(ct.Reads) > 0 {
+			fargs = append(fargs, ctx.ex.heapToken(ctx.state(), ct.Reads))
+		}
 		rs := fn.Signature.Results()
 		for i := 0; i < rs.Len(); i++ {
 			res = append(res, CV{ctx.ex.f.App(fmt.Sprintf("fn.%s.r%d", sanitize(ct.Key()), i), ctx.ex.tm.SortOf(rs.At(i).Type()), fargs...), rs.At(i).Type()})
@@ -941,6 +948,9 @@ func (ctx *EvalCtx) ifaceFunctionCall(ct *Contract, recv CV, method string, argE
 	}
 	if ct.ReadsWorld {
 		fargs = append(fargs, ctx.state().world)
+	}
+	if len(ct.Reads) > 0 {
+		fargs = append(fargs, ex.heapToken(ctx.state(), ct.Reads))
 	}
 	var res []CV
 	for i := 0; i < sig.Results().Len(); i++ {
